@@ -293,6 +293,46 @@ func c16Run(c *ev.Ctx) {
 			ins[at] = append(ins[at], c16Failing(r, st, seq))
 		}
 	}
+	// premature calls: an operation of the history issued too early — before the group it
+	// creates into, or the object it links to, exists. It must fail there, and the same call
+	// must later succeed in its own place exactly as if it had never been tried.
+	createdAt := map[string]int{}
+	for i, op := range h {
+		switch op.K {
+		case "group", "create_ds", "create_cmp", "densegroup", "softlink", "extlink", "hardlink":
+			if _, ok := createdAt[op.Path]; !ok {
+				createdAt[op.Path] = i
+			}
+		}
+	}
+	npre := 0
+	for j, op := range h {
+		if npre >= 3 || !r.Chance(1, 2) {
+			continue
+		}
+		need := -1
+		switch op.K {
+		case "group", "create_ds", "create_cmp":
+			if parent, _ := splitPath(op.Path); parent != "/" && parent != "" {
+				if i, ok := createdAt[parent]; ok && i < j {
+					need = i
+				}
+			}
+		case "hardlink":
+			if i, ok := createdAt[op.Target]; ok && i < j {
+				need = i
+			}
+		}
+		if need < 0 {
+			continue
+		}
+		f := op
+		f.Expect = ""
+		f.Tag = "premature:" + op.K
+		at := r.Intn(need + 1)
+		ins[at] = append(ins[at], f)
+		npre++
+	}
 	// closed-writer calls at the end
 	closedTail := r.Chance(1, 2)
 	build := func(keep func(tag string, idx int) bool) (*hx.Script, []int, []string) {
@@ -536,7 +576,7 @@ func c16Spec(path string) string {
 var C16 = &ev.Property{
 	ID:    "C16",
 	Level: "exploration",
-	Rule: "twin runs: run A executes a history H (random histories of dataset/group/attribute/link/resize/write calls, or histories that fill a group to its 32-entry / 256-byte name-heap capacity or a group header to its 255 bytes, or that leave a dataset header a few bytes short of its capacity before a first hard link needs a reference-count message in it) with 1-18 calls chosen to fail inserted at 1-6 random points from a catalogue of 40 kinds (empty/relative/existing names, missing parents, zero extents, chunk rank/size/zero, max-dims without chunks or below the extent, unknown datatype, string/array/enum options missing, Write with wrong length or Go type, Resize with wrong rank or on a fixed dataset, unsupported/empty attribute values, 64 KiB attribute names, missing attributes, duplicate or dangling hard/soft/external links, dense groups with dangling links, calls beyond a capacity limit) and, in half of the cases, calls on the closed writer and its handles plus two further Close calls; run B executes H alone (plus inserted calls that succeeded in A). Violations: any panic; an error from a repeated Close; a call on a closed writer/handle that reports success; a call of H whose outcome differs between A and B; any difference between the dumps of A and B through the library reader (all metadata, values, attributes) or through the independent decoder (tree, reference counts, raw data, attribute bytes). " +
+	Rule: "twin runs: run A executes a history H (random histories of dataset/group/attribute/link/resize/write calls, or histories that fill a group to its 32-entry / 256-byte name-heap capacity or a group header to its 255 bytes, or that leave a dataset header a few bytes short of its capacity before a first hard link needs a reference-count message in it) with 1-18 calls chosen to fail inserted at 1-6 random points from a catalogue of 40 kinds (empty/relative/existing names, missing parents, zero extents, chunk rank/size/zero, max-dims without chunks or below the extent, unknown datatype, string/array/enum options missing, Write with wrong length or Go type, Resize with wrong rank or on a fixed dataset, unsupported/empty attribute values, 64 KiB attribute names, missing attributes, duplicate or dangling hard/soft/external links, dense groups with dangling links, calls beyond a capacity limit, replacements of existing attributes by values no storage takes) plus up to three premature calls (an operation of H issued before the group it creates into or the object it links to exists) and, in half of the cases, calls on the closed writer and its handles plus two further Close calls; run B executes H alone (plus inserted calls that succeeded in A). Violations: any panic; an error from a repeated Close; a call on a closed writer/handle that reports success; a call of H whose outcome differs between A and B; any difference between the dumps of A and B through the library reader (all metadata, values, attributes) or through the independent decoder (tree, reference counts, raw data, attribute bytes). " +
 		"non-trivial: at least one inserted call failed, or the closed-writer tail ran; distinct = (superblock, variant, kinds of failed calls, tail, history length).",
 	Assumptions: []string{"orphaned allocations are not logical content: byte identity between the twins is not required"},
 	Cases: func(tier string) int {
